@@ -184,10 +184,10 @@ def parse_san_log(text):
     i = 0
     while i < len(lines):
         ln = lines[i]
-        m = re.search(r"ERROR: (AddressSanitizer|LeakSanitizer): ([\w\-]+)", ln)
+        m = re.search(r"ERROR: (AddressSanitizer|LeakSanitizer): ([^:(]+?)(?: on (?:unknown )?(?:address )?(?:0x[0-9a-f]+)?| in thread|:|\s*\(|$)", ln)
         if m:
             tool = "asan" if m.group(1) == "AddressSanitizer" else "lsan"
-            cls = m.group(2)
+            cls = m.group(2).strip().replace(" ", "-")
             j = i + 1
             block = []
             # first stack only (until blank line)
